@@ -16,6 +16,9 @@ type Op struct {
 	Label  string `json:"label,omitempty"`
 	Seed   uint32 `json:"seed,omitempty"` // data bytes = DataByte(seed, i)
 	Text   string `json:"text,omitempty"`
+	// Alias > 0 (data only, honoured by ApplyRealIn): the slice handed to EmitBytes is a window of the emitter's own target
+	// buffer, Alias bytes above the write position, so that it overlaps the destination
+	Alias uint32 `json:"alias,omitempty"`
 }
 
 func (o Op) String() string {
@@ -55,6 +58,11 @@ func (o Op) Data() []byte {
 
 // ApplyReal performs the call on a real emitter; a panic is caught and returned.
 func ApplyReal(em *asm.Emitter, o Op) (ret uint32, panicked interface{}) {
+	return ApplyRealIn(em, o, nil)
+}
+
+// ApplyRealIn is ApplyReal for an emitter whose target buffer is known to the caller (needed for Op.Alias).
+func ApplyRealIn(em *asm.Emitter, o Op, target []byte) (ret uint32, panicked interface{}) {
 	defer func() {
 		if r := recover(); r != nil {
 			panicked = r
@@ -68,7 +76,15 @@ func ApplyReal(em *asm.Emitter, o Op) (ret uint32, panicked interface{}) {
 		}
 		reflect.ValueOf(em).MethodByName(o.Method).Call(m.Args(o.V, o.Label))
 	case "data":
-		em.EmitBytes(o.Data())
+		d := o.Data()
+		if lo := em.Len() + int(o.Alias); o.Alias > 0 && target != nil && lo+len(d) <= len(target) {
+			// the data is prepared in the free part of the target buffer and emitted from there
+			src := target[lo : lo+len(d)]
+			copy(src, d)
+			em.EmitBytes(src)
+		} else {
+			em.EmitBytes(d)
+		}
 	case "label":
 		ret = em.Label(o.Label)
 	case "comment":
